@@ -30,7 +30,7 @@ ASSUMPTIONS = [
 
 def params(tier):
     if tier == 'quick':
-        return {'examples': 1500, 'wall': 80, 'case_timeout': 30, 'max_steps': 6}
+        return {'examples': 1500, 'wall': 120, 'case_timeout': 30, 'max_steps': 6}
 
     return {'examples': 6000, 'wall': 600, 'case_timeout': 60, 'max_steps': 15}
 
